@@ -181,8 +181,9 @@ impl Monitor for C14 {
     fn workload(&self, w: &Work, emit: &mut dyn FnMut(Case)) -> J {
         let n = w.share(30_000, 2_000_000);
         let mut rng = w.rng("C14", 1);
-        let mut cfg = GenCfg::std(&['a', 'b', 'A', ' ', '\t', '1', '\u{10400}']);
-        cfg.max_top = 4;
+        // backslash and brackets as literals: rendered as \\\\ \\[ \\], the stripper's escape tracking is the target
+        let mut cfg = GenCfg::std(&['a', 'b', 'A', ' ', '\t', '1', '\u{10400}', '\\', '[', ']', '\\', ' ']);
+        cfg.max_top = 5;
         let ws = ['\t', '\n', '\r', ' '];
         let not_ws = ['\u{c}', '\u{b}', '\u{a0}', '\u{85}', '\u{2028}'];
         for k in 0..n {
